@@ -1,6 +1,6 @@
 From Coq Require Import List NArith Bool.
 From V.gen Require Consts.
-From V.C12 Require Import Model Proofs Inv2 Async Sched Progress.
+From V.C12 Require Import Model Proofs Inv2 Async Sched Progress Live.
 Import ListNotations.
 Open Scope N_scope.
 From V.C12 Require Import Properties.
@@ -60,6 +60,18 @@ Check (C12_sync_nonblocking :
               else e_fclog (gl s' x) = e_fclog (gl s x) ++ [k] /\ e_cmds (hn s' x) = e_cmds (hn s x) + 1)
       else r = 2 /\ s' = s
   end).
+Check (C12_sink_sync_nonblocking :
+  forall (c : cfg) (x : bool) (s : st) (k t l : N),
+  let '(s', r) := sink_sync c x s k t l in
+  gep s' (negb x) = gep s (negb x) /\ lAB s' = lAB s /\ lBA s' = lBA s /\
+  hn s' x = hn s x /\ e_aq (cn s' x) = e_aq (cn s x) /\
+  e_fclog (gl s' x) = e_fclog (gl s x) /\
+  if live s x k then
+    if len (e_sq (cn s x)) <? c_s (ecf c x)
+    then r = 0 /\ e_sq (cn s' x) = e_sq (cn s x) ++ [mkN x k true t l] /\
+         e_acc (gl s' x) = e_acc (gl s x) ++ [mkN x k true t l]
+    else r = 1 /\ s' = s
+  else r = 2 /\ s' = s).
 Check (C12_clog_once :
   forall (c : cfg) (hs : list (list bool)) (ts : list step) (x : bool),
     NoDup (e_fclog (gl (final c hs ts) x))).
@@ -165,6 +177,86 @@ Check (C12_handle_progress :
   e_evs (hn s y) = [] -> e_peers (hn s y) = Some k -> e_nq (hn s y) = n :: q -> n_per n = k -> b <> 0 ->
   let '(s', e) := h_poll c y b s in
   e = UNotif n /\ e_nq (hn s' y) = q /\ e_del (gl s' y) = e_del (gl s y) ++ [n]).
+Check (C12_eventual_delivery :
+  forall (c : cfg) (hs : list (list bool)) (ts : list step) (b : N) (n : nat),
+    let s := final c hs ts in
+    drainable c b s -> (under_way s <= n)%nat ->
+    let s' := final c hs (ts ++ fair_rounds b n) in
+    drainable c b s' /\ under_way s' = O /\
+    forall x m, proj (per s) m (e_del (gl s' (negb x))) = proj (per s) m (e_acc (gl s x))).
+Check (C12_fair_round_progress :
+  forall (c : cfg) (b : N) (s : st), drainable c b s ->
+    let s' := fst (run c s (fair_round b)) in
+    drainable c b s' /\ same_acc s s' /\
+    (under_way s' <= under_way s)%nat /\ (under_way s <> O -> (under_way s' < under_way s)%nat)).
+Check (C12_first_delivered_is_first_accepted :
+  forall (c : cfg) (hs : list (list bool)) (ts : list step) (x : bool) (k : N) (m : bool) (n : notif) (rest : list notif),
+    let s := final c hs ts in
+    proj k m (e_del (gl s (negb x))) = n :: rest ->
+    exists rest', proj k m (e_acc (gl s x)) = n :: rest').
 Check (C12_quiescence_is_a_schedule :
   forall (c : cfg) (hs : list (list bool)) (xs : list action),
     exists ts, arun c 0 (init hs) xs = final c hs ts).
+From Coq Require Import List NArith Bool.
+From V.C12 Require Import Start StartProofs.
+From V.gen Require C12Tables.
+Import ListNotations.
+Open Scope N_scope.
+From V.C12 Require Import StartProperties.
+Check (C12_start_invariant :
+  forall (auto : bool) (l : list op), Inv (final true auto l)).
+Check (C12_start_inbound_clean :
+  forall (auto : bool) (l : list op) (t : task), In t (tasks (final true auto l)) ->
+    exists h, s_hs (t_in t) = [h] /\ s_cn (t_in t) = t_fwd t /\
+              s_hist (t_in t) = h :: t_fwd t ++ s_wire (t_in t) /\ s_out (t_in t) = [LOCAL_HS]).
+Check (C12_start_outbound_clean :
+  forall (auto : bool) (l : list op) (t : task), In t (tasks (final true auto l)) ->
+    exists h q, s_out (t_out t) = LOCAL_HS :: q /\ s_ohs (t_out t) = 1 /\ s_hs (t_out t) = [h] /\
+                s_hist (t_out t) = h :: s_wire (t_out t)).
+Check (C12_start_first_forwarded_is_first_sent :
+  forall (auto : bool) (l : list op) (t : task) (H : frame) (ns : list frame),
+    In t (tasks (final true auto l)) -> s_hist (t_in t) = H :: ns ->
+    s_hs (t_in t) = [H] /\ prefix (t_fwd t) ns).
+Check (C12_start_end_to_end :
+  forall (autoa autob : bool) (la lb : list op) (ta tb : task),
+    In ta (tasks (final true autoa la)) -> In tb (tasks (final true autob lb)) ->
+    prefix (s_hist (t_in tb)) (s_out (t_out ta)) ->
+    exists q, s_out (t_out ta) = LOCAL_HS :: q /\ s_hs (t_in tb) = [LOCAL_HS] /\ prefix (t_fwd tb) q).
+Check (C12_start_validated_handshake :
+  forall (auto : bool) (l : list op) (p : peer) (d : bool) (o : outb) (y : sub) (h : frame),
+    ps (final true auto l) p = Some (Validating d o (IValidating y h)) ->
+    s_hs y = [h] /\ s_hist y = h :: s_wire y).
+Check (C12_start_ready_belongs :
+  forall (auto : bool) (l : list op) (p : peer) (o : bool) (h : frame),
+    In (p, o, h) (ready (final true auto l)) ->
+    exists e, hget (final true auto l) p o = Some e /\ (s_hs (e_sub e) = [h] \/ (o = false /\ h = EMPTY))).
+Check (C12_start_stale_ready_refuted :
+  user_events false w_stale_in =
+    [UFail 0 E_REJECTED; UValidate 0 100; UOpened 0 false 200; UNotif 0 101; UNotif 0 7] /\
+  task_view false w_stale_in = [([101; 7], [], [101; 7])]).
+Check (C12_start_stale_ready_sender_refuted :
+  map (fun t => (s_out (t_out t), s_hs (t_out t))) (tasks (final false false w_stale_out)) = [([9], [])] /\
+  In (UOpened 0 true 200) (user_events false w_stale_out)).
+Check (C12_start_witnesses_repaired :
+  (user_events true w_stale_in = [UFail 0 E_REJECTED; UValidate 0 101; UOpened 0 false 200; UNotif 0 7] /\
+   task_view true w_stale_in = [([101; 7], [101], [7])]) /\
+  (map (fun t => (s_out (t_out t), s_hs (t_out t))) (tasks (final true false w_stale_out)) = [([LOCAL_HS; 9], [201])] /\
+   In (UOpened 0 true 201) (user_events true w_stale_out))).
+Check (C12_start_closing_is_silent :
+  forall (s : st) (k : N) (t : task),
+    find_task k (tasks s) = Some t -> t_alive t = true -> t_running t = false ->
+    exists t', find_task k (tasks (task_poll s k)) = Some t' /\ same_io t t').
+Check (C12_start_handle_gone_closes :
+  forall (s : st) (k : N) (t : task),
+    find_task k (tasks s) = Some t -> t_ph t = PRun -> hdrop s = true -> t_res t = false ->
+    exists t', find_task k (tasks (task_poll s k)) = Some t' /\ t_running t' = false /\
+               t_in t' = t_in t /\ t_fwd t' = t_fwd t).
+Check (C12_tables_in_sync :
+  C12Tables.select_biased = true /\ C12Tables.select_order = [1; 2; 3; 4; 5; 6] /\
+  C12Tables.conn_poll_order = [1; 2; 3; 4; 5] /\ C12Tables.close_order = [1; 2; 3; 4; 5] /\
+  C12Tables.handle_order = [1; 2] /\
+  C12Tables.notification_errors = 6 /\ C12Tables.sync_closed_maps_to = 1 /\ C12Tables.sync_full_maps_to = 2 /\
+  C12Tables.sync_uses_try_send = true /\ C12Tables.async_uses_send = true /\
+  C12Tables.forget_sites = [true; true; true; true; true] /\
+  1 <= C12Tables.C12_SYNC_CHANNEL_SIZE /\ 1 <= C12Tables.C12_ASYNC_CHANNEL_SIZE /\
+  1 <= C12Tables.C12_NEGOTIATION_TIMEOUT_SECS).
